@@ -92,6 +92,23 @@ def pick_time(rng, opts, offgrid=0.5):
     return int(min(t, dur + hyd))
 
 
+def pick_clock(rng, opts):
+    """A time of day: round hours, odd seconds, and instants just before / after midnight (inside the hydraulic step that
+    crosses it), on and off the hydraulic grid."""
+    hyd = opts['hyd']
+    u = rng.random()
+    if u < 0.45:
+        return rng.choice([0, 3600, 2 * 3600 + 1800, 6 * 3600, 7 * 3600 + 900, 12 * 3600, 18 * 3600 + 60, 23 * 3600])
+    if u < 0.6:
+        return rng.randint(0, DAY - 1)
+    if u < 0.8:
+        return DAY - rng.choice([1, 60, 900, hyd // 2, hyd, rng.randint(1, hyd - 1), rng.randint(1, 2 * hyd)])
+    if u < 0.9:
+        return rng.choice([1, 60, hyd // 2, rng.randint(1, hyd - 1)])
+    # relative to the simulation start: an instant of the first day on / off the hydraulic grid
+    return (opts['start'] + pick_time(rng, dict(opts, duration=min(opts['duration'], DAY - hyd)))) % DAY
+
+
 def gen_schedule(rng, opts, status_targets):
     n = rng.randint(1, 7)
     out = []
@@ -103,7 +120,7 @@ def gen_schedule(rng, opts, status_targets):
         if kind == 'time':
             out.append({'kind': 'time', 'name': name, 'time': pick_time(rng, opts), 'target': tgt, 'attr': 'status', 'value': val})
         elif kind == 'clock':
-            ct = rng.choice([0, 3600, 2 * 3600 + 1800, 6 * 3600, 7 * 3600 + 900, 12 * 3600, 18 * 3600 + 60, 23 * 3600])
+            ct = pick_clock(rng, opts)
             out.append({'kind': 'time', 'name': name, 'time': ct, 'clock': True, 'daily': True, 'target': tgt, 'attr': 'status', 'value': val})
         elif kind == 'setting_time':
             out.append({'kind': 'time', 'name': name, 'time': pick_time(rng, opts), 'target': 'V', 'attr': 'setting',
@@ -116,7 +133,7 @@ def gen_schedule(rng, opts, status_targets):
                 cond = {'kind': 'simtime', 'op': rng.choice(['>=', '>', '<', '<=', '=', '>=']), 'time': pick_time(rng, opts, 0.4)}
             elif kind == 'rule_clock':
                 cond = {'kind': 'clock', 'op': rng.choice(['>=', '>', '<', '<=', '=']),
-                        'time': rng.choice([3600, 6 * 3600, 9 * 3600 + 1800, 12 * 3600, 20 * 3600])}
+                        'time': rng.choice([3600, 6 * 3600, 9 * 3600 + 1800, 12 * 3600, 20 * 3600]) if rng.random() < 0.6 else pick_clock(rng, opts)}
             else:
                 lo = pick_time(rng, opts, 0.3)
                 hi = lo + rng.choice([opts['hyd'], 2 * opts['hyd'], 3 * opts['hyd'] + 300, 7200])
@@ -264,8 +281,13 @@ def run_case(c, rng):
     from vlib.gen import ctrl as gctrl
     variant = c.index % 3
     hyd = rng.choice([600, 900, 1800, 3600])
-    opts = {'hyd': hyd, 'rule': rng.choice([hyd, hyd // 2, hyd // 3, 300, 360, 420]), 'start': rng.choice([0, 0, 3600, 6 * 3600, 13 * 3600 + 1800, 23 * 3600]),
+    start = rng.choice([0, 0, 3600, 6 * 3600, 13 * 3600 + 1800, 23 * 3600]) if rng.random() < 0.7 else \
+        rng.choice([rng.randint(0, DAY - 1), DAY - rng.randint(1, 4 * hyd), 60 * rng.randint(0, 1439), DAY - 3 * hyd])
+    opts = {'hyd': hyd, 'rule': rng.choice([hyd, hyd // 2, hyd // 3, 300, 360, 420]), 'start': start,
             'duration': hyd * rng.randint(4, 16) if rng.random() < 0.7 else rng.choice([DAY + 4 * hyd, 2 * DAY + 3 * hyd, 3 * DAY])}
+    if opts['duration'] < DAY and rng.random() < 0.35:
+        # short runs that still cross a clock midnight
+        opts['start'] = start = (DAY - hyd * rng.randint(1, max(1, opts['duration'] // hyd - 1)) + rng.choice([0, 0, 1, hyd // 2, rng.randint(0, hyd - 1)])) % DAY
     if c.tier == 'quick' and opts['duration'] > DAY + 6 * hyd and hyd < 1800:
         opts['duration'] = DAY + 4 * hyd
     wn, status_targets = build_host(rng, variant, opts)
